@@ -24,7 +24,9 @@ Oracles (none of them is the code under test):
   read back from the created objects;
 * bind: nothing reaches the interface while a block runs, exactly one bundle
   holding the block's messages in issue order at normal exit, nothing if the
-  block raises, server.addr restored either way;
+  block raises, server.addr restored either way - also when the transport
+  raises while the block flushes its bundle (injected OSError at the
+  interface): the block is over and later commands reach the wire again;
 * allocator: after the history every allocator is drained through the public
   constructors; ids of live objects must not be handed out, every id freed
   during the history and not live must come back.
@@ -214,7 +216,13 @@ class Capture:
             self.depth -= 1
         self.calls.append(Call('msg', None, [list(args)], wire, bad))
 
+    fail_flush = None
+
     def _send_bundle(self, target, time, *elements):
+        if self.fail_flush is not None:
+            # injected transport fault (e.g. EMSGSIZE from sendto)
+            e, self.fail_flush = self.fail_flush, None
+            raise e
         if self.depth or not self.on:
             return self.orig_bundle(target, time, *elements)
         wire, bad = self._wires([list(e) for e in elements])
@@ -1446,6 +1454,17 @@ class Run:
         calls = CAP.calls[n0:]
         if outcome == 'sc3_raised':
             return
+        if outcome == 'flush_failed':
+            # the bundle is lost with the failing transport; the block is
+            # over: later commands go to the real address again (checked
+            # above and by the comparison of every later op)
+            self.labels.add('bind_flush_failed')
+            self.nontrivial = True
+            if calls:
+                self.fail('bind_sent_on_exception',
+                          f'{where}: flush failed but '
+                          f'{[c.raw for c in calls]} reached the interface')
+            return
         if outcome == 'raised':
             self.labels.add('bind_raised')
             if calls:
@@ -1471,6 +1490,12 @@ class Run:
         (generated exception left the block) | 'sc3_raised'."""
         n_calls = len(CAP.calls)
         mine = []
+        flush = bool(exc) and exc['type'] == 'Flush'
+        if flush:
+            # the transport fails when the (outermost) block flushes
+            exc = None
+            flush = depth == 1
+        flush_err = OSError(90, 'generated: message too long')
         etype = EXC_TYPES[exc['type']] if exc else None
         try:
             with S.bind() as baddr:
@@ -1478,6 +1503,8 @@ class Run:
                     if exc and exc['k'] == j:
                         raise etype('generated')
                     if j == len(inner):
+                        if flush:
+                            CAP.fail_flush = flush_err
                         break
                     op = inner[j]
                     if op[0] == 'bind':
@@ -1501,6 +1528,9 @@ class Run:
                                   f'{j} server.addr is {S.addr!r}')
                         S._addr = baddr
         except BaseException as e:
+            CAP.fail_flush = None
+            if e is flush_err:
+                return 'flush_failed'
             if etype is not None and type(e) is etype and \
                     e.args == ('generated',):
                 return 'raised'
@@ -1511,6 +1541,8 @@ class Run:
                           f'{where}: at block exit: {e!r}')
                 return 'sc3_raised'
             raise
+        # a block with nothing to flush never meets the fault
+        CAP.fail_flush = None
         sink.extend(mine)
         return 'ok'
 
@@ -1787,12 +1819,13 @@ EXC = st.one_of(
     st.none(), st.none(),
     st.fixed_dictionaries({'k': st.integers(0, 6),
                            'type': st.sampled_from(sorted(EXC_TYPES)),
-                           'catch': st.booleans()}))
+                           'catch': st.booleans()}),
+    st.just({'k': -1, 'type': 'Flush', 'catch': True}))
 
 
 def _fix_exc(b):
     name, inner, exc = b
-    if exc is not None:
+    if exc is not None and exc['type'] != 'Flush':
         exc = dict(exc, k=min(exc['k'], len(inner)))
     return [name, inner, exc]
 
